@@ -5,6 +5,7 @@ mod audit;
 mod batch;
 mod boundary;
 mod boundary_large;
+mod boundary_epochs;
 mod comps;
 mod engine;
 mod exec;
